@@ -703,7 +703,12 @@ class World:
         saved = eng.in_callee_model
         eng.in_callee_model = True
         try:
+            skip_subs = eng.contract.opts.get("assume_requires", ()) if eng.contract else ()
             for i, r in enumerate(c.requires):
+                if any(sub in r for sub in skip_subs):
+                    eng.assumptions_used.add("at a call of %s from %s the precondition %r is assumed, not proved: %s" % (fi.qualname, eng.cur_label, r, eng.contract.opts.get("assume_requires_why", "")))
+                    eng.assume(eng.eval_merged(lambda r=r: eng.truth(eng.eval_str(r, fr))))
+                    continue
                 eng.in_callee_model = saved
                 eng.oblige("%s.requires[%d]" % (label, i), _clause(eng, r, fr), kind="call-requires", site=getattr(node, "lineno", None), note=r)
                 eng.in_callee_model = True
@@ -878,6 +883,8 @@ class World:
             names = [x.name for x in c.items]
         elif isinstance(c, VClass):
             names = [c.name]
+        elif isinstance(c, VFunc) and getattr(c, "ext", None) and str(c.ext).startswith("builtin:"):
+            names = [c.ext[8:]]
         else:
             raise OutOfSubset("isinstance class arg %r" % (c,))
         res = []
@@ -960,7 +967,8 @@ class World:
         if fi is None:
             raise OutOfSubset("function %s not found in repository" % c.qualname)
         if selfcls is not None and selfcls.startswith("<"):
-            selfcls = None  # pseudo class: a second contract (another configuration) of a module-level function
+            # pseudo class "<tag>" or "<tag>RealClass": a second contract (another configuration) of the same function
+            selfcls = selfcls.split(">", 1)[1] or None
         label = label or (c.label or ((selfcls + "::" if selfcls and selfcls != fi.cls else "") + (fi.cls + "." if fi.cls else "") + fi.name))
         eng = Engine(self, label)
         eng.cur_label = label
